@@ -6,6 +6,9 @@ Engine E2: complete enumeration of a grammar of small x86_32 programs whose bran
 
 with the input in a register (EAX, symbolised with update_state({EAX: INPUT})) or in a 4-byte memory cell
 (symbolize_memory over its four bytes; compared in place, loaded first, or modified in place first).
+A family ("table") indexes a table of 2 or 4 entries of 8/16/32 bits with the masked symbolic input (AND EAX, n-1; load or
+compare of [table + EAX*size]): the branch condition reads memory through an input-dependent pointer; the compare
+constant is a real entry (first / last), equals the last entry in its first byte only, or matches no entry.
 A family ("division") branches on the quotient or remainder of an 8/16-bit IDIV/DIV whose dividend is the full symbolic
 register pair (AX, or DX:AX loaded from the whole input) with the constant divisors 3, 100, -7, so that dividend x
 divisor overflows the dividend's width for part of the inputs.
@@ -195,6 +198,50 @@ def division(op, width, divisor, part, cconst, jcc):
     return "\n".join(lines) + "\n"
 
 
+TAB = 0x2020      # lookup table of the table family (inside the data page, after the cells used by the other families)
+TAB_ENTRIES = {32: [0x11223344, 0x55667788, 0x99AABBCC, 0xDDEEFF10], 16: [0x1122, 0x3344, 0x5566, 0x7788], 8: [0x11, 0x22, 0x33, 0x44]}
+TAB_CLASSES = ["first-entry", "last-entry", "last-entry-low-byte-only", "no-entry"]
+
+
+def table_const(width, n, cls):
+    ent = TAB_ENTRIES[width][:n]
+    if cls == "first-entry":
+        return ent[0]
+    if cls == "last-entry":
+        return ent[-1]
+    if cls == "last-entry-low-byte-only":
+        # equal to the last entry in its first byte only: no input reaches the branch, but a solver that may invent
+        # the other bytes of the last element "finds" one
+        return (0x5A5A5A00 & ((1 << width) - 1)) | (ent[-1] & 0xFF)
+    return 0x0BADF00D & ((1 << width) - 1)
+
+
+def table(width, n, form, cls, jcc):
+    """A table of n entries of `width` bits indexed by the masked symbolic input: the branch condition reads memory
+    through an input-dependent pointer. form load: the entry goes to EDX first; direct: CMP on the memory operand."""
+    mem = "%s PTR [EAX * 0x%X + 0x%X]" % (SIZE_KW[width], width // 8, TAB)
+    c = table_const(width, n, cls)
+    lines = ["main:", "    AND EAX, 0x%X" % (n - 1)]
+    if form == "load":
+        lines.append("    MOV EDX, " + mem if width == 32 else "    MOVZX EDX, " + mem)
+        lines.append("    CMP EDX, 0x%X" % c)
+    else:
+        lines.append("    CMP %s, 0x%X" % (mem, c))
+    lines += ["    %s l1" % jcc,
+              "    MOV ECX, 0x1",
+              "    JMP end",
+              "l1:",
+              "    MOV ECX, 0x2",
+              "end:",
+              "    RET"]
+    return "\n".join(lines) + "\n"
+
+
+def tables(widths, ns, forms, classes, jccs):
+    return [["table", w, n, f, cls, j] for w in widths for n in ns for f in forms for cls in classes for j in jccs
+            if not (w == 8 and cls == "last-entry-low-byte-only")]
+
+
 def divisions(ops, widths, divisors, branches):
     return [["division", op, w, d, part, c, j] for op in ops for w in widths for d in divisors for (part, c, j) in branches]
 
@@ -204,6 +251,8 @@ def build(spec):
         return single(*spec[1:])
     if spec[0] == "division":
         return division(*spec[1:])
+    if spec[0] == "table":
+        return table(*spec[1:])
     if spec[0] == "straddle":
         return straddle(*spec[1:])
     return multi(*spec[1:])
@@ -212,7 +261,7 @@ def build(spec):
 def spec_mode(spec):
     if spec[0] == "straddle":
         return "membuf"
-    if spec[0] == "division":
+    if spec[0] in ("division", "table"):
         return "reg"
     return spec[1] if spec[0] == "single" else spec[2]
 
@@ -285,12 +334,22 @@ def quick_divisions():
             + divisions(["DIV"], [8], [100], DIV_BRANCHES[1:2] + DIV_BRANCHES[3:]))
 
 
+def quick_tables():
+    return (tables([32, 16], [2, 4], ["load"], TAB_CLASSES, ["JZ"])
+            + tables([8], [4], ["load"], ["last-entry", "no-entry"], ["JZ"])
+            + tables([32], [4], ["direct"], ["last-entry-low-byte-only"], ["JZ"]))
+
+
+TAB_INPUTS = [0x0, 0xFFFFFFFF]
+
+
 def quick_groups():
     """(program specs, strategies, initial inputs) groups of the quick tier."""
     return [
+        (quick_tables(), ["branch"], TAB_INPUTS),
         (quick_divisions(), ["branch"], [0x0, 328]),
         (quick_straddles(), ["branch"], INS),
-        (singles("reg", ARITH[:5], CMPS[:4], JCCS[:7]), ["branch"], IN2),
+        (singles("reg", ARITH[:5], CMPS[:4], JCCS[:6]), ["branch"], IN2),
         (singles("memdirect", ["none"], CMPS[:4], JCCS[:5]), ["branch"], IN2),
         (singles("memload", ["none", "ADD $, 0x3"], CMPS[:2], JCCS[:4]), ["branch"], IN2),
         (singles("meminplace", ["ADD $, 0x3", "XOR $, 0x55"], CMPS[:2], JCCS[:3]), ["branch"], IN2),
@@ -330,6 +389,10 @@ def plan(tier):
         (multis(["nested", "seq", "nestedft"], ["reg", "memdirect"], M1, MIDS, M2), ALL3, IN2M),
         (multis(["nested"], ["memload"], M1[:2], MIDS, M2[:2]), ALL3, IN4),
         (threes(["reg", "memdirect"], M1[:3], MIDS, M2[:2], M3) + threes(["memdirect"], M1[3:4], ["none"], M2[1:2], M3[:1]), ALL3, IN2M),
+        (quick_tables(), ["branch"], TAB_INPUTS),
+        ([x for x in tables([32, 16, 8], [2, 4], ["load", "direct"], TAB_CLASSES, ["JZ", "JNZ"]) if x not in quick_tables()], ["branch"],
+         TAB_INPUTS + [0x1]),
+        (tables([32, 16], [4], ["load"], TAB_CLASSES, ["JZ"]), ["code", "path"], TAB_INPUTS),
         (quick_divisions(), ["branch"], DIV_INPUTS),
         ([x for x in divisions(["IDIV", "DIV"], [8, 16], [3, 100, -7], DIV_BRANCHES_T) if x not in quick_divisions()], ["branch"], DIV_INPUTS),
         (divisions(["IDIV"], [8, 16], [100, -7], DIV_BRANCHES[:2]), ["code", "path"], [328, 0x8000]),
@@ -487,6 +550,11 @@ def data_page(inp, spec):
     if buf is not None:
         off = buf[0] - DATA
         data[off:off + buf[1]] = inp.to_bytes(4, "little")[:buf[1]]
+    if spec[0] == "table":
+        width, n = spec[1], spec[2]
+        for i, e in enumerate(TAB_ENTRIES[width][:n]):
+            o = TAB - DATA + i * (width // 8)
+            data[o:o + width // 8] = e.to_bytes(width // 8, "little")
     return bytes(data)
 
 
@@ -601,7 +669,7 @@ def writes_cell(spec):
     """The program modifies the symbolised memory cell in place before (one of) its compares."""
     if spec[0] == "single":
         return spec[1] == "meminplace"
-    if spec[0] in ("straddle", "division"):
+    if spec[0] in ("straddle", "division", "table"):
         return False
     return spec[2] in ("memdirect", "meminplace") and spec[5] != "none"
 
@@ -612,6 +680,8 @@ def skeleton(spec):
     if spec[0] == "straddle":
         where, what = straddle_class(spec)
         return "straddle/buf%d/%s-store-%s/branch-on-%s" % (spec[1], spec[2], where, what)
+    if spec[0] == "table":
+        return "table/w%d/n%d/%s/compare-with-%s/%s" % (spec[1], spec[2], spec[3], spec[4], spec[5])
     if spec[0] == "division":
         _, op, width, divisor, part, cconst, jcc = spec
         return "division/%s%d/%s-divisor/%s-%s" % (op, width, "negative" if divisor < 0 else "positive",
@@ -828,7 +898,7 @@ def _run(ctx):
         "evaluations": tot.get("runs", 0),
         "distinct_nontrivial": tot.get("nontrivial", 0),
         "programs": len(progs),
-        "programs_by_family": {k: sum(1 for s in progs if (s[0] if s[0] == "single" else s[1]) == k) for k in ("single", "seq", "nested", "nestedft", "three", "straddle", "division")},
+        "programs_by_family": {k: sum(1 for s in progs if (s[0] if s[0] == "single" else s[1]) == k) for k in ("single", "seq", "nested", "nestedft", "three", "straddle", "division", "table")},
         "programs_by_input_mode": {m: sum(1 for s in progs if spec_mode(s) == m) for m in MODES},
         "dse_runs_with_error": tot.get("errors", 0),
         "path_constraints_recorded": tot.get("constraints", 0),
